@@ -21,9 +21,18 @@ def reset():
         del LOG[:]
 
 
-def snapshot():
+_RUN = itertools.count(1)
+
+
+def new_run_tag():
+    """Tag for the events of one observed run: threads of an earlier, aborted run may still be
+    appending events (joblib does not join its workers on error), so logs are filtered by tag."""
+    return f"run{next(_RUN)}"
+
+
+def snapshot(tag=None):
     with LOCK:
-        return list(LOG)
+        return [e for e in LOG if tag is None or e.get("tag") == tag]
 
 
 class PassThroughScaler(BaseEstimator):
@@ -105,6 +114,11 @@ class RecordingEstimator(BaseEstimator):
         self.seed = seed
         self.tag = tag
 
+    def __getstate__(self):
+        st = dict(self.__dict__)
+        st.pop("_last_X", None)
+        return st
+
     # -- helpers
     def _uid(self):
         if not hasattr(self, "uid_"):
@@ -129,6 +143,7 @@ class RecordingEstimator(BaseEstimator):
         rids, Xi = self._split(X)
         self._sleep(rids)
         self.inner_ = _Inner(self.kind, self.seed).fit(Xi, y)
+        self._last_X = None
         self.n_fit_ += 1
         with LOCK:
             LOG.append({"ev": "fit", "uid": uid, "iter": self.n_fit_, "rids": rids.copy(),
@@ -140,8 +155,14 @@ class RecordingEstimator(BaseEstimator):
     def _score(self, X):
         uid = self._uid()
         rids, Xi = self._split(X)
-        self._sleep(rids)
         out = np.asarray(self.inner_.score(Xi), dtype=float)
+        # mokapot's _get_scores calls predict_proba twice on the *same array object* for
+        # two-column outputs: that is one logical scoring, logged once (identity, not equality)
+        if getattr(self, "_last_X", None) is X:
+            self._last_X = None  # only the immediately repeated call is the duplicate
+            return out
+        self._last_X = X
+        self._sleep(rids)
         with LOCK:
             LOG.append({"ev": "score", "uid": uid, "after_fit": getattr(self, "n_fit_", 0), "rids": rids.copy(),
                         "out": out.copy(), "thread": threading.get_ident(), "seq": next(_SEQ), "tag": self.tag})
